@@ -1,5 +1,5 @@
 //! C06: sensible input (pairwise distances >= 0.5 A) must never abort or produce non-finite / overflow-scale numbers.
-//! Every failure is attributed to a signature (site, centre type, environment, collinear?) through the type accessor.
+//! Every failure is attributed to a signature (site, centre type, environment) through the type accessor.
 use crate::gen::*;
 use crate::s_ff::*;
 use crate::util::*;
@@ -8,7 +8,7 @@ use optrs::verif::*;
 fn finite_all(v: &[f64]) -> bool { v.iter().all(|x| x.is_finite()) }
 
 /// Why did it fail? A description precise enough to tell known defects from new ones.
-fn attribute(m: &Mol, mol: &Molecule, kind: &str) -> String {
+pub fn attribute(m: &Mol, mol: &Molecule, kind: &str) -> String {
     let x = &mol.coordinates;
     let mut notes: Vec<String> = vec![];
     if kind == "uff" {
@@ -16,10 +16,9 @@ fn attribute(m: &Mol, mol: &Molecule, kind: &str) -> String {
             let types = ff.verif_atom_types();
             for t in ff.verif_terms() {
                 if t.kind == "angle_a" || t.kind == "angle_b" {
-                    let a = angle_value(t.idxs[0], t.idxs[1], t.idxs[2], x);
-                    let collinear = a.sin().abs() < 1e-6 || a.is_nan();
+                    // (collinear bends used to be a cause — the gradient divided by sin(theta) = 0; repaired in /repo, so
+                    // collinearity is no longer an attribution and a failure there is reported like any other)
                     let ty = &types[t.idxs[1]];
-                    if collinear { notes.push(format!("exactly collinear bend {}-{}-{} (centre {} {}, {}): gradient divides by sin(theta) = 0", t.idxs[0], t.idxs[1], t.idxs[2], ty.name, ty.environment, t.kind)); }
                     if t.kind == "angle_b" && (ty.theta.sin().abs() < 1e-3) {
                         notes.push(format!("cosine-harmonic bend at centre type {} in {} environment whose natural angle is 180 deg: c2 = 1/(4 sin^2 theta0) overflows", ty.name, ty.environment));
                     }
@@ -29,9 +28,27 @@ fn attribute(m: &Mol, mol: &Molecule, kind: &str) -> String {
                 } else if t.params.iter().any(|p| !p.is_finite()) {
                     notes.push(format!("{} term {:?} has non-finite parameters {:?}", t.kind, t.idxs, t.params));
                 }
-                if t.kind == "inversion" || t.kind == "torsion" {
+                if t.kind == "inversion" {
+                    // centre c with neighbours a, b collinear with it (exactly or to rounding): the plane a-c-b has no normal
+                    let c = t.idxs[0];
+                    let nb = [t.idxs[1], t.idxs[2], t.idxs[3]];
+                    let mut degenerate = false;
+                    for (a, b) in [(nb[0], nb[1]), (nb[1], nb[2]), (nb[0], nb[2])] {
+                        let ang = angle_value(a, c, b, x);
+                        if ang.sin().abs() < 1e-6 || ang.is_nan() {
+                            degenerate = true;
+                            notes.push(format!("inversion at centre type {} whose neighbours are collinear with it (a T-shaped or straight a-c-b arrangement): the plane a-c-b has no normal, the inversion angle is 0/0", types[c].name));
+                        }
+                    }
                     let e = make_term(&t).energy(x);
-                    if !e.is_finite() { notes.push(format!("{} term on {:?} evaluates to {} at this geometry", t.kind, t.idxs, e)); }
+                    if !e.is_finite() && !degenerate { notes.push(format!("inversion term on {:?} evaluates to {} at this geometry", t.idxs, e)); }
+                }
+                if t.kind == "torsion" {
+                    let (a1, a2) = (angle_value(t.idxs[0], t.idxs[1], t.idxs[2], x), angle_value(t.idxs[1], t.idxs[2], t.idxs[3], x));
+                    let degenerate = a1.sin().abs() < 1e-6 || a2.sin().abs() < 1e-6 || a1.is_nan() || a2.is_nan();
+                    if degenerate { notes.push("torsion with an end atom on the axis of its central bond (flanking angle exactly 0 or 180 deg): the dihedral angle is 0/0".to_string()); }
+                    let e = make_term(&t).energy(x);
+                    if !e.is_finite() && !degenerate { notes.push(format!("torsion term on {:?} evaluates to {} at this geometry", t.idxs, e)); }
                 }
             }
         }
